@@ -92,6 +92,9 @@ pub enum Action {
     /// Offer a message the transport must never deliver (local-only type), or a response from
     /// a stranger, to `RawNode::step` (C20). kind indexes MessageType; from = claimed sender.
     Bogus { n: NodeId, kind: u8, from: NodeId, term_delta: i8 },
+    /// A (pre-)vote request from a node outside n's configuration (a removed or misconfigured node that keeps
+    /// campaigning): ordinary network input. term = n's term + term_delta; `fresh`: claims n's own last (index, term).
+    StrangerVote { n: NodeId, from: NodeId, term_delta: u8, pre: bool, fresh: bool },
     /// Faults stop: operator heals the cluster, then a deterministic fair suffix runs inside
     /// the World (so that minimisation cannot break the fairness premise). Checks C10 (and C17
     /// when `transfer` is set).
